@@ -7,7 +7,7 @@
    for every hash function (C19_index_go, C19_index_mod). *)
 From Gws Require Import Lib.Base Model.ShardMap Spec.AtomicMap
   Proofs.LinProofs Proofs.ShardMapSeq Proofs.ShardMapConc Proofs.ShardMapLin Proofs.ShardMapLen
-  Proofs.ShardMapRange Proofs.ShardMapMutex Proofs.ShardMapExample.
+  Proofs.ShardMapRange Proofs.ShardMapMutex Proofs.ShardMapExample Gen.Funcs Proofs.GenFuncsProofs.
 
 (* ---- 1. sequential refinement ---- *)
 
@@ -121,6 +121,12 @@ Proof.
   exists st. rewrite Ht, Hm. repeat split; auto. cbn. tauto.
 Qed.
 
+(* Tie to the source: the shard count NewConcurrentMap rounds its argument up to (internal.ToBinaryNumber, regenerated
+   loop and all from internal/utils.go on every run) is the model's to_binary_number, for every request up to 65536 *)
+Theorem C19_shard_count_from_source : forall n : N, (n <= 65536)%N ->
+  gf_internal_ToBinaryNumber (Z.of_N n) = Z.of_N (to_binary_number n).
+Proof. exact gen_ToBinaryNumber_is. Qed.
+
 Print Assumptions C19_index_go.
 Print Assumptions C19_index_mod.
 Print Assumptions C19_refines_map_step.
@@ -133,3 +139,4 @@ Print Assumptions C19_msize_is_size.
 Print Assumptions C19_len_bounds.
 Print Assumptions C19_range_once.
 Print Assumptions C19_replay_is_abs.
+Print Assumptions C19_shard_count_from_source.
